@@ -359,12 +359,12 @@ func c19Run(c *Ctx) {
 func init() {
 	register(&CheckDef{
 		ID:          "C19",
-		Rule:        "runs of the plain binary: 21 command-line shapes (no argument, .bn names incl. '.bn', dotted, spaced and Bangla names, nested directory; .BN, .bn.txt, no extension, near-miss extensions; 2 and 3 arguments whose scripts would print a marker; missing file, directory named d.bn; thorough: open failures injected with strace); programs of every outcome class (clean, runtime error of 21 kinds, syntax error of 6 kinds, lexical error of 2 kinds, failing ইনপুট) with 0-4 ইনপুট calls with and without prompts x seeded stdin contents of 0-6 lines from {x, ' padded ', empty, Bangla digits, 'a b', tabs} with LF/CRLF and with or without a final newline; errors on the first/middle/last line of an 11-line program; ইনপুট corner cases (unterminated last line, blank-only lines, CRLF, 40 consecutive reads, 12 kB line, reads in a loop, read after an error). Each (exit status, stdout, stderr) is compared with the class and output refborno assigns (prompts and trimmed input lines included); in-process replays count stdin reads with the InputRead hook. Non-trivial = distinct decided (program, stdin) or argv shape.",
+		Rule:        "runs of the plain binary: 21 command-line shapes (no argument, .bn names incl. '.bn', dotted, spaced and Bangla names, nested directory; .BN, .bn.txt, no extension, near-miss extensions; 2 and 3 arguments whose scripts would print a marker; missing file, directory named d.bn; thorough: open failures injected with strace); every runtime fault of C06's pool at top level and inside a function; programs of every outcome class (clean, runtime error of 21 kinds, syntax error of 6 kinds, lexical error of 2 kinds, failing ইনপুট) with 0-4 ইনপুট calls with and without prompts x seeded stdin contents of 0-6 lines from {x, ' padded ', empty, Bangla digits, 'a b', tabs} with LF/CRLF and with or without a final newline; errors on the first/middle/last line of an 11-line program; ইনপুট corner cases (unterminated last line, blank-only lines, CRLF, 40 consecutive reads, 12 kB line, reads in a loop, read after an error). Each (exit status, stdout, stderr) is compared with the class and output refborno assigns (prompts and trimmed input lines included); in-process replays count stdin reads with the InputRead hook. Non-trivial = distinct decided (program, stdin) or argv shape.",
 		Assumptions: []string{"usage / bad-extension messages may go to either stream (the property asks for 'a message')", "ইনপুট at end of stdin is out of domain"},
 		Run:         c19Run,
 		Judge:       c19Judge,
 		MustCount: func(c *Ctx) []string {
-			return []string{"argv:usage64", "argv:unreadable", "argv:runs", "argv:repl-empty", "class:clean", "class:runtime-error", "class:static-error", "input_calls:4", "hook_stdin_reads", "gen:input-corner-cases", "gen:text-endings"}
+			return []string{"argv:usage64", "argv:unreadable", "argv:runs", "argv:repl-empty", "class:clean", "class:runtime-error", "class:static-error", "input_calls:4", "hook_stdin_reads", "gen:input-corner-cases", "gen:text-endings", "gen:every-runtime-fault"}
 		},
 	})
 }
